@@ -250,7 +250,21 @@ func (t *Thread) Yield(args []Value) ([]Value, error) {
 // This turns off the thread, cleaning up its close stack.  The thread must be
 // running.
 func (t *Thread) end(args []Value, err error, exception interface{}) {
+	// The pending to-be-closed handlers run first, while the thread is still
+	// an ordinary running thread: no mutex is held, its resume channel is open
+	// and it is not dead yet, so a handler may create, resume or close other
+	// coroutines.  The only thing it cannot do is yield (there is nothing to
+	// come back to): the caller is detached for the duration of the cleanup,
+	// which makes Yield return an ordinary error to the handler.
 	caller := t.caller
+	t.caller = nil
+	if _, terminated := exception.(ContextTerminationError); terminated {
+		// The context was killed: there are no resources to run the pending
+		// to-be-closed handlers, so just discard them (as CallContext does).
+		t.closeStack.truncate(0)
+	} else {
+		err = t.cleanupCloseStack(nil, 0, err) // TODO: not nil
+	}
 	t.mux.Lock()
 	caller.mux.Lock()
 	defer t.mux.Unlock()
@@ -264,13 +278,6 @@ func (t *Thread) end(args []Value, err error, exception interface{}) {
 	close(t.resumeCh)
 	t.status = ThreadDead
 	t.caller = nil
-	if _, terminated := exception.(ContextTerminationError); terminated {
-		// The context was killed: there are no resources to run the pending
-		// to-be-closed handlers, so just discard them (as CallContext does).
-		t.closeStack.truncate(0)
-	} else {
-		err = t.cleanupCloseStack(nil, 0, err) // TODO: not nil
-	}
 	t.closeErr = err
 	// Release the goroutine's stack allocation before handing control back:
 	// after sendResumeValues the caller's goroutine owns the runtime again.
